@@ -114,6 +114,9 @@ func observe(st *state.StateDB, addrs []common.Address, slots []uint64, normalis
 	return out
 }
 
+// logsText renders the current transaction's logs with their block-wide Index, followed by the state's log
+// counter (what the next log's Index will be): "addr/topics@index,...#logSize". A log whose TxIndex/TxHash is not the
+// current transaction's is marked.
 func logsText(st *state.StateDB, thash common.Hash) string {
 	var ls []string
 	for _, l := range st.GetLogs(thash) {
@@ -121,12 +124,17 @@ func logsText(st *state.StateDB, thash common.Hash) string {
 		for _, t := range l.Topics {
 			x = append(x, t.Big().String())
 		}
-		ls = append(ls, strings.Join(x, "/"))
+		e := fmt.Sprintf("%s@%d", strings.Join(x, "/"), l.Index)
+		if l.TxIndex != uint(st.TxIndex()) || l.TxHash != thash {
+			e += fmt.Sprintf("!tx%d", l.TxIndex)
+		}
+		ls = append(ls, e)
 	}
-	if len(ls) == 0 {
-		return "-"
+	body := "-"
+	if len(ls) > 0 {
+		body = strings.Join(ls, ",")
 	}
-	return strings.Join(ls, ",")
+	return fmt.Sprintf("%s#%d", body, st.VerifC09LogSize())
 }
 
 func totalBalance(st *state.StateDB, addrs []common.Address) *big.Int {
@@ -598,7 +606,7 @@ func runGo(c *testCase, checkObs bool) (res *caseResult, fatal string) {
 		if !guard("dump / Finalise(true) / dump", func() {
 			r.dump = append(observe(st, uni, res.slots, true), "logs="+logsText(st, thash), fmt.Sprintf("refund=%d", st.GetRefund()))
 			st.Finalise(true)
-			r.dumpFin = append(observe(st, uni, res.slots, true), "logs=-", "refund=0")
+			r.dumpFin = append(observe(st, uni, res.slots, true), fmt.Sprintf("logs=-#%d", st.VerifC09LogSize()), "refund=0")
 		}) {
 			return abort()
 		}
